@@ -21,8 +21,8 @@ def run(ctx):
         ("C02_2x1_d3", 2, 1, "bfs", None, None),
         # -simulate prints Emit for every successor of a trace's last state (~ alphabet size
         # behaviours per trace), so num is small
-        ("C02_2x2_sim", 2, 2, "simulate", 60 if not thorough else 1200, 8),
-        ("C02_3x1_sim", 3, 1, "simulate", 100 if not thorough else 1500, 10),
+        ("C02_2x2_sim", 2, 2, "simulate", 60 if not thorough else 250, 8),
+        ("C02_3x1_sim", 3, 1, "simulate", 100 if not thorough else 400, 10),
     ]
     if thorough:
         runs += [("C02_2x1_d4", 2, 1, "bfs", None, None), ("C02_2x2_d3", 2, 2, "bfs", None, None)]
